@@ -1,5 +1,5 @@
 import SJ.Model.Lexical
-import SJ.Proofs.LexIeee
+import SJ.Proofs.Ieee
 import SJ.Proofs.LexTables
 import Mathlib.Tactic.Ring
 import Mathlib.Tactic.Linarith
@@ -13,7 +13,7 @@ import Mathlib.Tactic.Linarith
 * `intoFloat_eq_roundMag` (nearest), `intoDownwardFloat_eq_floorMag` (toward zero), `bhRound_eq_roundMag` (sticky).
 -/
 namespace SJ.Proofs.LexRound
-open SJ SJ.Gen SJ.Model.Lexical SJ.Spec.Ieee32 SJ.Proofs.LexIeee
+open SJ SJ.Gen SJ.Model.Lexical SJ.Spec.Ieee SJ.Proofs.Ieee
 
 /-- the constants of `impl Float for f32/f64` (`num.rs`) are those of the IEEE format `F` -/
 structure FCok (c : FC) (F : Fmt) : Prop where
